@@ -64,6 +64,9 @@ pub struct World {
     pub barrier_cap: u32,
     pub settle_inconclusive: AtomicU64,
     pub server_task: Mutex<Option<tokio::task::JoinHandle<()>>>,
+    /// message_id values the next Publish carries in its messages (a client that forwards received
+    /// messages verbatim); consumed by that Publish.
+    pub forward_ids: Mutex<Vec<String>>,
 }
 
 /// Builds the runtime for one episode.
@@ -166,6 +169,7 @@ impl World {
             barrier_cap: 10_000,
             settle_inconclusive: AtomicU64::new(0),
             server_task: Mutex::new(server_task),
+            forward_ids: Mutex::new(Vec::new()),
         })
     }
 
